@@ -33,6 +33,15 @@ def main():
             import traceback
             u = ctx.unit("pre-build", "infrastructure", "translator / generated data")
             u.error = traceback.format_exc()[-3000:]
+    # every generated file reflects /repo's working tree now, whichever property is being checked (the G-unit of a
+    # property reports on its own translator; the others are refreshed silently so that `make` sees no stale file)
+    try:
+        import gen_units
+        gen_units.refresh_all(ctx)
+    except Exception:
+        import traceback
+        u = ctx.unit("pre-build", "infrastructure", "translator / generated data")
+        u.error = traceback.format_exc()[-3000:]
     if a.no_coq:
         proof = dict(build_ok=True, build_out="", prop=dict(ok=True, theorems=[], assumptions={}, output=""), gate=[])
     else:
